@@ -804,7 +804,65 @@ func (sf *skelField) abstractFunc(name string) sk {
 	for i := len(fa.deferred) - 1; i >= 0; i-- {
 		body = seq(body, fa.deferred[i])
 	}
-	return body
+	// keep the correlation only for guards that protect a Fill of this field somewhere in
+	// the function; every other IfC becomes a plain Alt (an over-approximation) so that
+	// the analysis does not enumerate valuations of guards that cannot matter
+	keep := map[string]bool{}
+	guardsWithFill(body, keep)
+	return relaxGuards(body, keep)
+}
+
+func containsFill(s sk) bool {
+	switch x := s.(type) {
+	case skFill:
+		return true
+	case skSeq:
+		return containsFill(x.a) || containsFill(x.b)
+	case skAlt:
+		return containsFill(x.a) || containsFill(x.b)
+	case skLoop:
+		return containsFill(x.a)
+	case skIfC:
+		return containsFill(x.a) || containsFill(x.b)
+	}
+	return false
+}
+
+func guardsWithFill(s sk, keep map[string]bool) {
+	switch x := s.(type) {
+	case skSeq:
+		guardsWithFill(x.a, keep)
+		guardsWithFill(x.b, keep)
+	case skAlt:
+		guardsWithFill(x.a, keep)
+		guardsWithFill(x.b, keep)
+	case skLoop:
+		guardsWithFill(x.a, keep)
+	case skIfC:
+		if containsFill(x.a) || containsFill(x.b) {
+			keep[x.c] = true
+		}
+		guardsWithFill(x.a, keep)
+		guardsWithFill(x.b, keep)
+	}
+}
+
+func relaxGuards(s sk, keep map[string]bool) sk {
+	switch x := s.(type) {
+	case skSeq:
+		return seq(relaxGuards(x.a, keep), relaxGuards(x.b, keep))
+	case skAlt:
+		return alt(relaxGuards(x.a, keep), relaxGuards(x.b, keep))
+	case skLoop:
+		return loop(relaxGuards(x.a, keep))
+	case skIfC:
+		a, b := relaxGuards(x.a, keep), relaxGuards(x.b, keep)
+		if keep[x.c] {
+			return ifc(x.c, a, b)
+		}
+		return alt(a, b)
+	}
+	return s
 }
 
 // computeAliases: struct fields assigned from the field anywhere in the package
